@@ -1303,7 +1303,11 @@ ws_http_cb_listener(nni_ws *ws, nni_aio *aio)
 
 	nni_mtx_lock(&l->mtx);
 	nni_list_remove(&l->reply, ws);
-	if (nni_aio_result(aio) != 0) {
+	if ((nni_aio_result(aio) != 0) || (l->closed)) {
+		// Failed, or nobody will ever accept it.
+		if (nni_list_empty(&l->reply)) {
+			nni_cv_wake(&l->cv);
+		}
 		nni_mtx_unlock(&l->mtx);
 		ws_reap(ws);
 		return;
@@ -1506,12 +1510,19 @@ ws_listener_stop(void *arg)
 	nni_ws_listener  *l = arg;
 	nni_http_handler *h;
 	nni_http_server  *s;
+	nni_ws           *ws;
 
 	ws_listener_close(l);
 
 	nni_mtx_lock(&l->mtx);
 	while (!nni_list_empty(&l->reply)) {
 		nni_cv_wait(&l->cv);
+	}
+	// Connections that completed the handshake but were never accepted
+	// belong to us; release them.
+	while ((ws = nni_list_first(&l->pend)) != NULL) {
+		nni_list_remove(&l->pend, ws);
+		ws_reap(ws);
 	}
 	h          = l->handler;
 	s          = l->server;
